@@ -8,7 +8,7 @@ tmp=$(mktemp -d /tmp/sqv_seed_XXXXXX)
 trap 'rm -rf "$tmp"' EXIT
 mkdir -p $tmp/repo && cp -r /repo/smartquery /repo/tests $tmp/repo/ 2>/dev/null
 (cd $tmp/repo && patch -s -p1 < /verif/seeded/$id/patch.diff) || { echo "$id: PATCH FAILED"; exit 9; }
-SQ_REPO=$tmp/repo ./check $prop > $tmp/out.txt 2>&1
+SQ_REPO=$tmp/repo SQV_OUT=$tmp/out ./check $prop > $tmp/out.txt 2>&1
 code=$?
 nviol=$(grep -c '^VIOLATION' $tmp/out.txt)
 nrepro=$(grep '^VIOLATION' $tmp/out.txt | grep -vc 'no-failing-input-found')
